@@ -29,10 +29,11 @@ PLANS["C14"] = {
         "word_get_previous": ["u1::word_tracker"], "word_get_next": ["u1::word_tracker"], "ignore": ["u1::word_tracker", "u1::slice_tracker_3"],
         "max_len": ["u1::word_tracker", "u1::slice_tracker_3"], "consume_next": ["u1::eval_binary_orders_4"],
         "slice_get_previous": ["u1::slice_tracker_3"], "slice_get_next": ["u1::slice_tracker_3"], "slice_ignore": ["u1::slice_tracker_3"],
-        "eval_binary": ["u1::eval_binary_orders_4", "u1::eval_binary_orders_4_slice"], "eval_numbers": [],
+        "eval_binary": ["u1::eval_binary_orders_4", "u1::eval_binary_orders_4_slice"], "eval_numbers": [], "deep_eval_relaxed_tracker_site": [],
     },
     "cex_native": {
         "eval_numbers": [("u1::eval_numbers_boundary_65", ["00", "01"]), ("u1::eval_numbers_boundary_66", ["00", "01"]), ("u1::eval_numbers_boundary_64", ["00", "01"])],
+        "deep_eval_relaxed_tracker_site": [("u1::deep_eval_boundary", ["40", "41", "42", "7f", "80", "81"])],
     },
     "trusted_base": [
         A_VERUS,
@@ -47,7 +48,6 @@ PLANS["C14"] = {
                     "SmallVec behaves as Vec (R3) in eval_numbers",
                     "max_len of a slice tracker does not overflow (slices of >= 2^58 words are not considered)"],
     "not_covered": [
-        "second tracker-selection call site deep.rs eval_relaxed (always slice tracker) — see unit u3b if present",
         "the inlined copy of the reduction loop in flat.rs flatex_to_deepex",
         "that prioritized_indices_* return a permutation (pre-condition of eval_binary; decided boundedly under C01)",
     ],
@@ -76,7 +76,7 @@ VALUE_TRUST = [
 def c16_kani(tier, gen):
     hs = ["u7::" + h for h in U7_FUNCTIONAL] + ["vgen::" + h for h in gen["value_harnesses"]["ac"]]
     if tier == "thorough":
-        hs += ["u7::" + h for h in U7_VECTOR]
+        hs += ["u7::" + h for h in U7_VECTOR] + ["vgen::" + h for h in gen["value_harnesses"]["ac_slow"]]
     return hs
 
 
@@ -139,9 +139,9 @@ PLANS["C19"] = {
 PLANS["C01"] = {
     "level": "model_checking",
     "verus": ["u123"],
-    "kani": {"quick": ["u5::is_operator_binary_all", "u4::unary_apply", "u4::flatop_apply", "u4::unary_append",
+    "kani": {"quick": ["u5::is_operator_binary_all", "u4::unary_apply", "u4::flatop_apply", "u4::unary_append_after", "u4::unary_remove_latest", "u4::unary_append_iter",
                        "u6::flat_perm_desc_3", "u6::flat_ltr_3", "u6::flat_last_3", "u6::deep_perm_desc_3", "u6::deep_ltr_3"],
-             "thorough": ["u5::is_operator_binary_all", "u4::unary_apply", "u4::flatop_apply", "u4::unary_append",
+             "thorough": ["u5::is_operator_binary_all", "u4::unary_apply", "u4::flatop_apply", "u4::unary_append_after", "u4::unary_remove_latest", "u4::unary_append_iter",
                           "u6::flat_perm_desc_3", "u6::flat_ltr_3", "u6::flat_last_3", "u6::deep_perm_desc_3", "u6::deep_ltr_3",
                           "u6::flat_perm_desc_4", "u6::flat_ltr_4", "u6::flat_last_4", "u6::deep_perm_desc_4", "u6::deep_ltr_4"]},
     "kani_timeout": {"quick": 900, "thorough": 3000},
@@ -179,32 +179,33 @@ PLANS["C09"] = {
 }
 PLANS["C07"] = {
     "level": "model_checking",
-    "kani": {"quick": ["c07::preconditions_len_0_1_2"] + ["c07::preconditions_len_3_a%d" % k for k in range(7)],
-             "thorough": ["c07::preconditions_len_0_1_2"] + ["c07::preconditions_len_3_a%d" % k for k in range(7)] + ["c07::preconditions_len_4_paren"]},
-    "kani_timeout": {"quick": 900, "thorough": 2400},
+    "kani": {"quick": ["c07::preconditions_len_0", "c07::preconditions_len_1", "c07::preconditions_len_2"],
+             "thorough": ["c07::preconditions_len_0", "c07::preconditions_len_1", "c07::preconditions_len_2"] + ["c07::preconditions_len_3_a%d" % k for k in range(7)]},
+    "kani_timeout": {"quick": 900, "thorough": 3000},
     "owns_unprefixed": True,
     "trusted_base": [A_CBMC, A_FMT, A_NOOVF], "assumptions": [A_CBMC, A_FMT, A_NOOVF],
     "not_covered": ["operand/operator count check (make_expression, DeepEx::new)", "unknown-character rejection (tokenizer)", "token sequences longer than the bound"],
-    "bounds": {"quick": ["all token sequences of length 0..=3 over 7 token kinds (1 + 7 + 49 + 343)"], "thorough": ["as quick, plus 196 sequences of length 4 starting with `((`, `(x`, `x-`, `(sin`"]},
+    "bounds": {"quick": ["all token sequences of length 0, 1 and 2 over 7 token kinds (symbolic kinds and number payloads)"], "thorough": ["as quick, plus all sequences of length 3"]},
     "explanation": "Partial, bounded: check_parsed_token_preconditions rejects exactly the documented malformed shapes for every short token sequence.",
 }
 PLANS["C15"] = {
     "level": "model_checking",
-    "kani": {"quick": ["c15::consuming_vs_cloning_3"], "thorough": ["c15::consuming_vs_cloning_3", "c15::consuming_vs_cloning_4_a0", "c15::consuming_vs_cloning_4_a1", "c15::consuming_vs_cloning_4_a2"]},
+    "kani": {"quick": ["c15::consuming_vs_cloning_2"], "thorough": ["c15::consuming_vs_cloning_2", "c15::consuming_vs_cloning_3"]},
     "kani_timeout": {"quick": 900, "thorough": 3000},
     "owns_unprefixed": True,
     "trusted_base": [A_CBMC, A_FMT, A_NOOVF], "assumptions": [A_CBMC, A_FMT, A_NOOVF],
-    "not_covered": ["entry points eval_vec / eval_iter beyond their arity guards (see C04)", "expressions with more than 4 nodes or more than 2 variables", "unary chains longer than 1"],
-    "bounds": {"quick": ["3 nodes over {literal, var 0, var 1}: all 27 shapes x both orders, symbolic values and unary flags"], "thorough": ["as quick, plus 4 nodes: all 81 shapes x all 6 orders"]},
+    "not_covered": ["entry points eval_vec / eval_iter (arity guards, collection of the iterator)", "expressions with more than 3 nodes or more than 2 variables", "unary chains longer than 1"],
+    "bounds": {"quick": ["2 nodes, each a symbolic choice of {literal, var 0, var 1} with optional unary function, symbolic values"], "thorough": ["as quick, plus 3 nodes with a symbolic application order"]},
     "explanation": "Bounded: eval_flatex_consuming_vars agrees with eval_flatex_cloning and with an independent reference reduction; no moved-out value reaches an operator; single-occurrence variables are not cloned.",
 }
 PLANS["C04"] = {
     "level": "model_checking",
-    "kani": {"quick": ["c04::arity_guards", "c04::var_lookup"], "thorough": ["c04::arity_guards", "c04::var_lookup"]},
+    "kani": {"quick": ["c04::arity_eval", "c04::arity_eval_relaxed"], "thorough": ["c04::arity_eval", "c04::arity_eval_relaxed"]},
     "kani_timeout": {"quick": 900, "thorough": 2400},
     "owns_unprefixed": True,
     "trusted_base": [A_CBMC, A_FMT, A_NOOVF], "assumptions": [A_CBMC, A_FMT, A_NOOVF],
-    "not_covered": ["brace tokenisation", "reset_vars / var_names_union and derived expressions", "the deep form's guards", "names beyond the concrete sample of var_lookup"],
-    "bounds": {"all": ["one-node FlatEx over two variables, value slices of length 0..=4 (symbolic values)", "find_parsed_vars / find_var_index on one concrete token shape"]},
+    "not_covered": ["brace tokenisation", "find_parsed_vars / find_var_index (name collection, order and lookup)", "reset_vars / var_names_union and derived expressions",
+                    "eval_vec / eval_iter guards", "the deep form's guards"],
+    "bounds": {"all": ["one-node FlatEx over two variables, symbolic variable index, value slices of symbolic length 0..=4 with symbolic values"]},
     "explanation": "Partial, bounded: arity guards and index binding of the flat form.",
 }
